@@ -77,6 +77,14 @@ def execute(c):
             for j, k in enumerate(COLS):
                 if k != "type":
                     t.ndata[k] = column(c, j, k, 1)         # the tree holds float64 columns (as after a user-supplied affine matrix)
+        if lib.vid(c) % 4 == 3 and len(cols) >= 3:
+            # a history: the tree was sorted (and asked whether it is sorted) while one node hung elsewhere, then that node was re-parented in place
+            ps = lib.pre_state([(-1 if q == -1 else q) for q in c["Q"]], lib.vid(c) // 4)
+            if ps is not None and c["Q"][0] == -1:
+                Q0, i = ps
+                t.node(i).pid = Q0[i]
+                sort_tree(t); is_sorted((t.id(), t.pid()))
+                t.node(i).pid = c["pids"][i]
         snap = lib.snapshot(t)
         if lib.vid(c) % 5 == 4:
             lib.scribble(sort_tree(t))          # an earlier result of the same call was overwritten in place by its owner
